@@ -96,7 +96,7 @@ impl Exp {
                     if let Exp::Number(coefficient) = &**lhs {
                         // exact test: near-zero coefficients are still meaningful scales
                         if *coefficient == 0.0 {
-                            return Ok(LinearizationContext::from_rhs(0.0));
+                            return zero_times(rhs);
                         }
                         let mut rhs = rhs.linearize(
                             linearizer_context,
@@ -106,7 +106,7 @@ impl Exp {
                         Ok(rhs)
                     } else if let Exp::Number(coefficient) = &**rhs {
                         if *coefficient == 0.0 {
-                            return Ok(LinearizationContext::from_rhs(0.0));
+                            return zero_times(lhs);
                         }
                         let mut lhs = lhs.linearize(
                             linearizer_context,
@@ -1296,6 +1296,43 @@ fn sum_exps(exps: &[Exp]) -> Exp {
     let mut iter = exps.iter().cloned();
     let first = iter.next().unwrap_or(Exp::Number(0.0));
     iter.fold(first, add_exp)
+}
+
+/// The value of `0 * exp`: zero, unless `exp` divides by zero or by something
+/// that is not a constant. A zero factor does not give such a division a value,
+/// so it is reported exactly as it would be without the factor.
+fn zero_times(exp: &Exp) -> Result<LinearizationContext, LinearizationError> {
+    match first_unresolved_division(exp) {
+        Some(division) => Err(match division {
+            Exp::BinOp(BinOp::Div, _, divisor) if matches!(**divisor, Exp::Number(_)) => {
+                LinearizationError::DivisionByZero(Box::new(division.clone()))
+            }
+            _ => LinearizationError::NonLinearExpression(Box::new(division.clone())),
+        }),
+        None => Ok(LinearizationContext::from_rhs(0.0)),
+    }
+}
+
+/// The first division inside `exp` whose divisor is not a non-zero constant.
+fn first_unresolved_division(exp: &Exp) -> Option<&Exp> {
+    match exp {
+        Exp::Number(_) | Exp::Variable(_) => None,
+        Exp::Abs(inner) | Exp::Not(inner) | Exp::UnOp(_, inner) => first_unresolved_division(inner),
+        Exp::Min(exps) | Exp::Max(exps) | Exp::And(exps) | Exp::Or(exps) => {
+            exps.iter().find_map(first_unresolved_division)
+        }
+        Exp::Xor(lhs, rhs) | Exp::Implies(lhs, rhs) | Exp::Iff(lhs, rhs) => {
+            first_unresolved_division(lhs).or_else(|| first_unresolved_division(rhs))
+        }
+        Exp::BinOp(op, lhs, rhs) => {
+            if matches!(op, BinOp::Div)
+                && !matches!(**rhs, Exp::Number(divisor) if divisor != 0.0)
+            {
+                return Some(exp);
+            }
+            first_unresolved_division(lhs).or_else(|| first_unresolved_division(rhs))
+        }
+    }
 }
 
 fn variables_without_finite_bounds(exp: &Exp, bounds: &BoundsAnalyzer) -> Vec<String> {
